@@ -114,6 +114,13 @@ class _RSock(_Sock):
         self.end = end
         self.ateof = False
 
+    def recv_into(self, buffer, nbytes=0, flags=0):
+        # a legitimate implementation may read in place; same scripted behaviours as recv
+        mv = memoryview(buffer).cast("B")
+        data = self.recv(nbytes or len(mv), flags)
+        mv[:len(data)] = data
+        return len(data)
+
     def recv(self, n, flags=0):
         flags = int(flags)
         if flags and hasattr(self, "getpeercert"):
